@@ -592,8 +592,11 @@ func rulesFastaAutomaton(c *Ctx, r *Report) {
 	conflict := ""
 	for _, p := range m.points {
 		oc := p.outcome()
-		// ignore points where the byte does not matter (loop not entered)
+		// ignore points where the byte does not matter: the read failed (loop not entered / left at once)
 		if strings.HasPrefix(p.exit, "leave->for.done") && len(p.events) == 0 {
+			continue
+		}
+		if readFailed(m, p) {
 			continue
 		}
 		st := p.vals[stateIdx]
@@ -783,6 +786,83 @@ func rulesFastaAutomaton(c *Ctx, r *Report) {
 				}
 			}
 		})
+		// the decision stage as a helper: return finish(result, flag, err)
+		if !accepts {
+			instrs(f, func(in ssa.Instruction) {
+				rt, ok := in.(*ssa.Return)
+				if !ok || !tail[rt.Block()] {
+					return
+				}
+				ops := retOperands(rt)
+				if len(ops) != 2 {
+					return
+				}
+				e0, ok0 := ops[0].(*ssa.Extract)
+				e1, ok1 := ops[1].(*ssa.Extract)
+				if !ok0 || !ok1 || e0.Tuple != e1.Tuple || e0.Index != 0 || e1.Index != 1 {
+					return
+				}
+				cl, ok := e0.Tuple.(*ssa.Call)
+				if !ok {
+					return
+				}
+				g := cl.Call.StaticCallee()
+				if g == nil || g.Blocks == nil || !c.inModule(g) {
+					return
+				}
+				r.analysed(fname(g))
+				// which of the helper's parameters carry the state, the last byte or the record
+				bad := map[ssa.Value]string{}
+				var recParam ssa.Value
+				for i, a := range cl.Call.Args {
+					if i >= len(g.Params) {
+						break
+					}
+					switch {
+					case a == stateV:
+						bad[g.Params[i]] = "the parser state"
+					case m.byteIn >= 0 && a == m.inputs[m.byteIn].v:
+						bad[g.Params[i]] = "the last byte"
+					case rec != nil && a == ssa.Value(rec):
+						bad[g.Params[i]] = "the record's content so far"
+						recParam = g.Params[i]
+					}
+				}
+				for _, b := range g.Blocks {
+					iff, ok := lastInstr(b).(*ssa.If)
+					if !ok {
+						continue
+					}
+					seen := map[ssa.Value]bool{}
+					var visit func(v ssa.Value)
+					visit = func(v ssa.Value) {
+						if v == nil || seen[v] {
+							return
+						}
+						seen[v] = true
+						if why, isBad := bad[v]; isBad {
+							dep = append(dep, why)
+							return
+						}
+						if in, ok := v.(ssa.Instruction); ok {
+							var ops []*ssa.Value
+							for _, op := range in.Operands(ops) {
+								visit(*op)
+							}
+						}
+					}
+					visit(iff.Cond)
+				}
+				instrs(g, func(in2 ssa.Instruction) {
+					if rt2, ok := in2.(*ssa.Return); ok {
+						o := retOperands(rt2)
+						if len(o) == 2 && isNilConst(o[1]) && recParam != nil && o[0] == recParam {
+							accepts = true
+						}
+					}
+				})
+			})
+		}
 		r.check(len(dep) == 0 && accepts, "FSM", where, "after the loop", pos,
 			"what is returned after the loop is decided by the read error and the read-anything flag only, and the record built so far is returned: input that ends without a final newline, in any state, yields its last record",
 			fmt.Sprintf("the decision after the loop depends on %v (record returned with nil error: %v): how the input ends (final newline or not, empty last line) changes what is returned", uniq(dep), accepts))
@@ -1446,4 +1526,33 @@ func rulesNewickParser(c *Ctx, r *Report) {
 	r.check(len(bad) == 0, "PARSE", where, "transition function", pos,
 		fmt.Sprintf("all %d (state, token kind, top level, number parses) transitions (from %d automaton points) match the Newick grammar up to state renaming: where a node may start, descend/ascend/sibling at the right depth, one name and one length per node, ';' only at the top level", n, len(m.points)),
 		"the parser deviates from the Newick grammar: "+strings.Join(bad, "; "))
+}
+
+// readFailed: at this point of the automaton an opaque condition says the ReadByte call returned an error.
+func readFailed(m *fsm, p *fsmPoint) bool {
+	for i, in := range m.inputs {
+		if !strings.HasPrefix(in.name, "cond") {
+			continue
+		}
+		var k int
+		fmt.Sscanf(in.name, "cond%d", &k)
+		if k < 1 || k > len(m.condDesc) {
+			continue
+		}
+		desc := m.condDesc[k-1]
+		if !strings.Contains(desc, "extract:1(call:bufio.(*Reader).ReadByte(") {
+			continue
+		}
+		switch {
+		case strings.Contains(desc, "(nil == "):
+			if p.vals[i] == 0 {
+				return true
+			}
+		case strings.Contains(desc, "!= nil)") || strings.Contains(desc, "(nil != "):
+			if p.vals[i] == 1 {
+				return true
+			}
+		}
+	}
+	return false
 }
